@@ -170,7 +170,7 @@ def check_campaign(ctx, cam, stats):
         st, leak, detail, view = cam.view(sid)
         views[sid] = (st, leak, detail, view)
         if view is not None:
-            own[sid] = B.compare_view(view, rec[cam.expect_key], tolerate_usevc_init=True, tolerate_ll_missing=True,
+            own[sid] = B.compare_view(view, rec[cam.expect_key], tolerate_usevc_init=False, tolerate_ll_missing=False,
                                       ignore=ignore, fallback_servers=fb)
     for sid, (rec, sc) in cam.scn.items():
         st, leak, detail, view = views[sid]
@@ -359,7 +359,10 @@ def report(ctx, cam, devs, culprits, stats):
         rec, sc = cam.scn[sid]
         jl = cam.junk_lines(sid)
         if kind in ("crash", "timeout", "missing") or kind.startswith("initfail"):
-            sig = "c15.%s family=%s junk=%s" % (kind, cam.name, sorted(set(c for _, _, c, _ in jl)))
+            if kind == "crash":
+                sig = "c15.crash %s" % B.crash_sig(detail)
+            else:
+                sig = "c15.%s family=%s junk=%s" % (kind, cam.name, sorted(set(c for _, _, c, _ in jl)))
             emit_violation(ctx, stats, sig, "%s: initialisation of scenario %s %s\n%s\n%s" %
                            (sig, sid, kind, detail, cam.describe(sid)[:2000]), cam.describe(sid))
         elif kind == "leak":
@@ -576,6 +579,5 @@ def run(ctx):
     ctx.notes["c15"] = stats
     ctx.level = "model_checking"
     ctx.assumptions.append("junk classes are bound to the concrete texts listed in harness/cfg/cfgbind.py; "
-                           "link-local nameservers may be absent and use-vc may be ignored at init without C15 "
-                           "objecting (both are decided by C16)")
+                           "interface 'lo' exists")
     ctx.log("C15 done: %s" % json.dumps({k: v for k, v in stats.items() if k != "families"}))
